@@ -64,6 +64,38 @@ CHECKS = {
             'and the attribute placement in the real tree must equal the specification.',
             'Trusted: TLC; the bitmap reading in FM94.tla (BackRefIncludesClass31 named); 204 across marker operators outside WF.',
             'DESIGN.md section 3 C07'),
+    'C04': (['Framing.tla', 'FramingSM.tla'],
+            'TLA+ specs Framing.tla (section layouts from FM-94) and FramingSM.tla (writer with recompute/honour length policies, reader, shrunk-length fault) '
+            'model-checked by TLC over editions x section 2 x data bit lengths x declared surpluses x total modes x trailing bytes; every terminal state '
+            'replayed into the real Encoder (both policies) and Decoder',
+            'TLC checks the length-accounting invariants on every combination inside the bounds; each combination is then executed: the encoder must '
+            'emit exactly the specification octets or refuse exactly when the specification refuses, the decoder must report the same lengths, values '
+            'and serialized bytes, or a library error exactly when the specification reader fails.',
+            'Trusted: TLC; Framing.tla/FramingSM.tla; data sections are runs of one-bit flags. Section 3 takes no surplus beyond its pad octet (two spare octets are a descriptor).',
+            'DESIGN.md section 3 C04'),
+    'C11': (['Stream.tla', 'Framing.tla'],
+            'TLA+ spec Stream.tla (scanner loop as a state machine, one action per loop exit, concrete octets assembled in the spec) model-checked by TLC over '
+            'all streams of <=2/3 pool messages x separators x modes; every terminal state replayed into generate_bufr_message with hooks on: delivered bytes, '
+            'end status and every loop iteration (found-at, next cursor, outcome) compared with the history variable; CLI split / info -c on a sample',
+            'Exhaustive over the bounded space of streams on the specification (YieldsExactlyMessages, DecoyNeverStartsMessage, ...) and on the implementation, '
+            'with per-iteration trace comparison.',
+            'Trusted: TLC; Stream.tla; pool of 4-5 small messages; separators without start signature; filter expression ${%edition} == 4.',
+            'DESIGN.md section 3 C11'),
+    'C12': (['Stream.tla', 'Framing.tla'],
+            'TLA+ spec Stream.tla with fault actions (stop signature, undefined element/sequence descriptor, section length -1/+1 in sections 1/3/4, truncation at every octet) '
+            'model-checked by TLC over streams x fault subsets x modes (ContinueSkipsOnlyDamaged, NoContinueDeliversPrefixThenError, NoPrefixDecodes); every terminal state '
+            'replayed into the real scanner with exception type and per-iteration trace compared; CLI subprocess sample checked for tracebacks',
+            'Fault enumeration driven by the specification: every subset of messages damaged at the modelled fault kinds, every truncation point; the implementation must '
+            'deliver exactly the messages the specification delivers and fail with the library error type.',
+            'Trusted: TLC; Stream.tla including InfoOK (what metadata-only decoding can see); total length of damaged messages intact.',
+            'DESIGN.md section 3 C12'),
+    'C17': (['MdQuery.tla', 'Stream.tla', 'Framing.tla'],
+            'TLA+ spec MdQuery.tla (expression parser + first-match/explicit-section lookup over section layouts read as data, cross-checked against Framing.tla) '
+            'model-checked by TLC over all parameter names x index forms x prefixes x editions x section 2 x mode; every case replayed into MetadataQuerent on real '
+            'full / metadata-only decodes; Stream.tla runs in metadata-only mode with data damage; corpus messages with overwritten data sections',
+            'Exhaustive over the bounded expression space on specification and implementation; metadata-only decoding shown independent of the data section.',
+            'Trusted: TLC; MdQuery.tla; definitions/*.json as data for parameter names.',
+            'DESIGN.md section 3 C17'),
     'C15': (['PathParser.tla', 'Trace_PathParser.tla'],
             'TLA+ spec PathParser.tla (documented grammar as recogniser + 9-state character automaton) model-checked by TLC over every '
             'string up to length 5/6 over a 12-symbol alphabet; TLC-emitted verdicts replayed into NodePathParser; recorded parser '
